@@ -52,4 +52,5 @@ Definition wf_case (c : case) : bool :=
   | CEnc a t o _ => wf_addr a && wf_tbl t && enc_guard a o
   | CParse s t _ _ => is_str s && wf_tbl t
   | CConv a _ _ => wf_addr a
+  | CKDec hrp s _ _ _ => is_str s && is_str hrp && negb (existsb is_upper hrp) && existsb is_lower hrp
   end.
